@@ -39,6 +39,7 @@ deriving Inhabited
 structure EState where
   sim : Sim.State CF Float
   env : List Scope := []                  -- innermost scope first
+  frameDepth : Nat := 0                   -- number of innermost scopes that belong to the current call frame
   returnValue : Value := {}
   hasReturn : Bool := false
   echoEnabled : Bool := true
@@ -61,7 +62,16 @@ def Scope.set (s : Scope) (name : String) (e : VarEntry) : Scope :=
   if s.any (·.1 == name) then s.map (fun kv => if kv.1 == name then (name, e) else kv)
   else s ++ [(name, e)]
 
-def beginScope : EM Unit := modify fun st => { st with env := [] :: st.env }
+def beginScope : EM Unit := modify fun st => { st with env := [] :: st.env, frameDepth := st.frameDepth + 1 }
+
+/-- `FrameBaseGuard` + `beginScope` at a call boundary: the new scope starts a new frame; returns the
+    caller's frame depth for the matching `leaveFrame` -/
+def enterFrame : EM Nat := do
+  let st ← get
+  set { st with env := [] :: st.env, frameDepth := 1 }
+  pure st.frameDepth
+
+def leaveFrame (saved : Nat) : EM Unit := modify fun st => { st with frameDepth := saved }
 
 def bump (tr : List (String × String × Nat)) (key outcome : String) : List (String × String × Nat) :=
   if tr.any (fun t => t.1 == key && t.2.1 == outcome) then
@@ -95,7 +105,7 @@ def endScope : EM Unit := modify fun st =>
       match trackedOutcome st.lastMeasurement kv.2.value with
       | some (pre, outcome) => bump tr (pre ++ kv.1) outcome
       | none => tr) st.tracked
-    { st with env := rest, tracked := tr }
+    { st with env := rest, tracked := tr, frameDepth := st.frameDepth - 1 }
 
 def declareVar (name : String) (e : VarEntry) : EM Unit := modify fun st =>
   match st.env with
@@ -105,7 +115,7 @@ def declareVar (name : String) (e : VarEntry) : EM Unit := modify fun st =>
 /-- `lookup` (class-free part): innermost binding, else void -/
 def lookup (name : String) : EM Value := do
   let st ← get
-  match st.env.findSome? (fun sc => (sc.find? (·.1 == name)).map (·.2.value)) with
+  match (st.env.take st.frameDepth).findSome? (fun sc => (sc.find? (·.1 == name)).map (·.2.value)) with
   | some v => pure v
   | none => pure {}
 
@@ -121,8 +131,8 @@ def assignVar (name : String) (v : Value) : EM Unit := do
             old.value.className != "" then { v with className := old.value.className } else v
         some (sc.set name { old with value := nv, initialized := true } :: rest)
       | none => (go rest).map (sc :: ·)
-  match go st.env with
-  | some env' => set { st with env := env' }
+  match go (st.env.take st.frameDepth) with
+  | some env' => set { st with env := env' ++ st.env.drop st.frameDepth }
   | none => declareVar name { value := v, tracked := false, initialized := true }
 
 /-! ### qubit book -/
@@ -724,7 +734,7 @@ def call (fuel : Nat) (fn : FuncDecl) (args : List Value) : EM Value :=
   match fuel with
   | 0 => throw .outOfFuel
   | fuel + 1 => do
-    beginScope
+    let savedFrame ← enterFrame
     for (prm, a) in fn.params.zip args do
       declareVar prm.name { value := a, tracked := false, initialized := true }
     let prevReturn := (← get).hasReturn
@@ -734,6 +744,7 @@ def call (fuel : Nat) (fn : FuncDecl) (args : List Value) : EM Value :=
     | other => exec fuel other
     let ret := (← get).returnValue
     endScope
+    leaveFrame savedFrame
     modify fun st => { st with hasReturn := prevReturn }
     pure ret
 
